@@ -187,6 +187,11 @@ def verify_function(contract: Contract, specs=None, variant=None) -> FunctionRep
             sa, fa = walk(al_a)
             sb, fb = walk(al_b)
             st.wcell(sb).fields[fb] = ex.getattr(sa, fa, st, None)
+        for _src, gname in contract.opts.get("iter_source", {}).items():
+            gv = Val("l", z3.Const(gname, ListS))
+            st.vars["__ghost_" + gname] = gv
+            st.vars[gname] = gv
+            rep.assumptions.append(f"{contract.qual}: `{_src}` yields exactly the sequence `{gname}` (assumed dependency contract)")
         params_bound = dict(st.vars)
         ex.params_bound = params_bound
         for cl in contract.requires_:
